@@ -305,10 +305,19 @@ func sideOfName(f string) string {
 		}
 		return false
 	}
+	// the vocabulary of the auction records, confirmed at the sites that create them:
+	// v1 dutch: OutflowToken*/AssetOutId = collateral sold, InflowToken*/AssetInId = debt raised;
+	// surplus: SellToken/AssetOutId, BuyToken/AssetInId; debt: AuctionedToken, ExpectedMintedToken/AssetOutId,
+	// ExpectedUserToken/AssetInId; v2: CollateralToken/CollateralAssetId, DebtToken/DebtAssetId.
+	// (lend pairs use AssetIn/AssetOut with the opposite meaning: only the exact auction field names count.)
 	switch {
-	case has("debt") || has("inflow"):
+	case f == "AssetInId":
 		return "debt"
-	case has("collateral") || has("outflow"):
+	case f == "AssetOutId":
+		return "collateral"
+	case has("debt") || has("inflow") || has("buy") || (has("expected") && has("user")):
+		return "debt"
+	case has("collateral") || has("outflow") || has("sell") || has("auctioned") || (has("expected") && has("minted")):
 		return "collateral"
 	}
 	return ""
